@@ -37,11 +37,13 @@ theorem boosted_zero_cases {mem : BCfg} {f : Nat} {g g' : Weekly.St} {c c' : BSt
   ⟨fun hz => boostedRewards_zero h hz, fun _ hfa hm => boostedRewards_below_min h hfa hm⟩
 
 /-- **paid_once.**  After a successful boosted claim of `u`, any further claim of `u` in the same week
-    (from any state that kept `u`'s claim progress) pays nothing and leaves the pools alone. -/
+    (from any state that kept `u`'s claim progress) pays nothing and leaves the pools alone.
+    (Since the repair of F6 also when the first claim ran without a boosted-yields config: the
+    hypothesis `s.b.cfg ≠ none` of the earlier statement is no longer needed.) -/
 theorem paid_once {s s1 s2 s3 : St} {u r1 r2 : Nat} (h1 : claimBoostedYields s u = some (s1, r1))
-    (hc : s.b.cfg ≠ none) (hprog : s2.w.progress u = s1.w.progress u) (hweek : s2.week = s.week)
+    (hprog : s2.w.progress u = s1.w.progress u) (hweek : s2.week = s.week)
     (h2 : claimBoostedYields s2 u = some (s3, r2)) : r2 = 0 ∧ s3.b = s2.b :=
-  Farm.paid_once h1 hc hprog hweek h2
+  Farm.paid_once h1 hprog hweek h2
 
 /-- **week_pool_bound (one payment).**  A payment for a week is bounded by what the week's pool still
     holds, and is booked against it: the week's `paidW` grows by exactly the payment. -/
